@@ -260,7 +260,7 @@ Record sst := {
   spart : P; spjh : J; s_is_sync : bool;
   s_recalc : bool;                      (* ri_whfast.recalculate_coordinates_this_timestep (shared with WHFast) *)
   s_alloc : bool;                       (* ri_whfast.p_jh != NULL *)
-  s_crashed : bool                      (* memcpy from a NULL p_jh *)
+  s_crashed : bool                      (* memcpy from a NULL p_jh (synchronize of an unsynchronized state without cache) *)
 }.
 
 Context (O : SOps) (dt : T).
@@ -271,12 +271,11 @@ Definition c0dt (c : scfg) : T := nmul N (cf (s_c c) 0) dt.                     
 Definition c0dt2 (c : scfg) : T := nmul N (nmul N stwo (cf (s_c c) 0)) dt.       (* 2.*reb_saba_c[..][0]*r->dt *)
 Definition cc2 (c : scfg) : T := nmul N stwo (s_cc c).                          (* 2.*reb_saba_cc[..] *)
 
-(* reb_integrator_saba_synchronize *)
+(* reb_integrator_saba_synchronize: nothing happens on a synchronized state; otherwise, with keep_unsynchronized, the
+   cache is copied aside first (a NULL cache on an unsynchronized state would be dereferenced: unreachable by stepping) *)
 Definition s_sync (c : scfg) (s : sst) : sst :=
-  let crash := s_crashed s || (s_keep c && negb (s_alloc s)) in      (* memcpy(sync_pj, p_jh, ...) before any check *)
-  if s_is_sync s then
-    {| spart := spart s; spjh := spjh s; s_is_sync := true; s_recalc := s_recalc s; s_alloc := s_alloc s; s_crashed := crash |}
-  else
+  if s_is_sync s then s else
+    let crash := s_crashed s || (s_keep c && negb (s_alloc s)) in
     let j := if s_corr_on c then s_corrector O (s_cc c) (spjh s) else sdrift (c0dt c) (spjh s) in
     if s_keep c
     then {| spart := s_to_inertial_sync O j; spjh := spjh s; s_is_sync := false; s_recalc := s_recalc s; s_alloc := s_alloc s; s_crashed := crash |}
